@@ -66,6 +66,7 @@ type WalletState struct {
 	Funding  int
 	Labels   map[string]string
 	Openings []string
+	Locked   uint64 // sat locked in own opening transactions (the balance the wallet reports goes down by it)
 }
 
 var walletKey = func() *btcec.PrivateKey {
@@ -196,6 +197,7 @@ func (s *SimWallet) CreateOpeningTransaction(p *swap.OpeningParams) (string, str
 	s.w.Record(o)
 	s.st.mu.Lock()
 	s.st.Openings = append(s.st.Openings, txid)
+	s.st.Locked += p.Amount
 	s.st.mu.Unlock()
 	if err := s.fail("createopening.after"); err != nil {
 		// the wallet broadcast succeeded but the adapter reports an error
@@ -405,7 +407,13 @@ func (s *SimWallet) GetOnchainBalance() (uint64, error) {
 	if err := s.fail("balance"); err != nil {
 		return 0, err
 	}
-	return s.Cfg.Balance, nil
+	s.st.mu.Lock()
+	locked := s.st.Locked
+	s.st.mu.Unlock()
+	if locked >= s.Cfg.Balance {
+		return 0, nil
+	}
+	return s.Cfg.Balance - locked, nil
 }
 
 // ---------------------------------------------------------------- lbtc validator (abstract tier)
